@@ -89,6 +89,14 @@ def _is_whole_result(call, closure) -> bool:
             pass
         elif isinstance(p, ast.UnaryOp) and isinstance(p.op, ast.USub):
             pass
+        elif isinstance(p, ast.BinOp) and isinstance(p.op, (ast.Mult, ast.Div)) and (p.left is n or isinstance(p.op, ast.Mult)):
+            # scaling by a scalar that does not depend on the closure's input: sign * jfn(x)
+            other = p.right if p.left is n else p.left
+            xs = {a.arg for a in closure.args.args[:1]}
+            if any(isinstance(y, ast.Name) and y.id in xs for y in ast.walk(other)) or any(isinstance(y, (ast.Call, ast.Subscript)) for y in ast.walk(other)):
+                return False
+        elif isinstance(p, ast.Call) and n in p.args and (dotted(p.func) or "") in ("np.negative", "np.asarray", "np.array", "np.atleast_1d", "np.atleast_2d", "np.ravel", "np.ascontiguousarray", "float"):
+            pass
         elif isinstance(p, ast.Return):
             return True
         else:
@@ -365,6 +373,150 @@ def _strip_sanitise(rv, env):
     return rv
 
 
+def _module_value(module, name):
+    for st in module.tree.body:
+        tg = st.targets[0] if isinstance(st, ast.Assign) and len(st.targets) == 1 else st.target if isinstance(st, ast.AnnAssign) else None
+        if isinstance(tg, ast.Name) and tg.id == name and getattr(st, "value", None) is not None:
+            return st.value
+    return None
+
+
+def _table_driven(prog, rep, fi, cl, construct, factories) -> bool:
+    """A closure whose term is `deriv(x)` with `deriv = TABLE[key]` / `TABLE.get(key)` picked by the factory from a
+    module-level dict literal: the closure is specialised per table key (the picked entry substituted and beta-reduced,
+    factory flags such as `key in SINGULAR_OPS` evaluated from the literal tables, conditionals folded) and each
+    specialisation is classified like a hand-written closure.  Returns False when the idiom is not recognised."""
+    from ..astutil import clone
+    from .c08 import _module_literal
+
+    fassigns = local_assignments(fi.node)
+    picks = {}
+    keyname = None
+    for nm in set(cl._param_calls):
+        vals = [v for v in fassigns.get(nm, []) if isinstance(v, ast.AST)]
+        if len(vals) != 1:
+            return False
+        v = vals[0]
+        tbl = key = None
+        if isinstance(v, ast.Subscript) and isinstance(v.value, ast.Name) and isinstance(v.slice, ast.Name):
+            tbl, key = v.value.id, v.slice.id
+        elif isinstance(v, ast.Call) and isinstance(v.func, ast.Attribute) and v.func.attr == "get" and isinstance(v.func.value, ast.Name) and len(v.args) == 1 and isinstance(v.args[0], ast.Name):
+            tbl, key = v.func.value.id, v.args[0].id
+        if tbl is None or (keyname is not None and key != keyname):
+            return False
+        d = _module_value(fi.module, tbl)
+        if not isinstance(d, ast.Dict) or not d.keys or not all(isinstance(k, ast.Constant) and isinstance(k.value, str) for k in d.keys):
+            return False
+        keyname = key
+        picks[nm] = {k.value: val for k, val in zip(d.keys, d.values)}
+    if not picks:
+        return False
+    keys = sorted(set.intersection(*[set(t) for t in picks.values()]))
+
+    def flag_value(e, k):
+        """bool value of a factory-level test under key = k, or None."""
+        if isinstance(e, ast.Compare) and len(e.ops) == 1 and isinstance(e.left, ast.Name) and e.left.id == keyname:
+            op, c = e.ops[0], e.comparators[0]
+            if isinstance(op, (ast.In, ast.NotIn)):
+                if isinstance(c, ast.Name):
+                    vals = _module_literal(prog, fi.module, c.id)
+                elif isinstance(c, (ast.Tuple, ast.List, ast.Set)) and all(isinstance(x, ast.Constant) for x in c.elts):
+                    vals = [x.value for x in c.elts]
+                else:
+                    vals = None
+                if vals is None:
+                    return None
+                return (k in vals) if isinstance(op, ast.In) else (k not in vals)
+            if isinstance(op, (ast.Eq, ast.NotEq)) and isinstance(c, ast.Constant):
+                return (k == c.value) if isinstance(op, ast.Eq) else (k != c.value)
+        if isinstance(e, ast.Constant) and isinstance(e.value, bool):
+            return e.value
+        if isinstance(e, ast.UnaryOp) and isinstance(e.op, ast.Not):
+            r = flag_value(e.operand, k)
+            return None if r is None else (not r)
+        return None
+
+    flags = {}
+    for nm, vals in fassigns.items():
+        vs = [v for v in vals if isinstance(v, ast.AST)]
+        if len(vs) == 1 and isinstance(vs[0], (ast.Compare, ast.UnaryOp)):
+            flags[nm] = vs[0]
+
+    class Spec(ast.NodeTransformer):
+        def __init__(self, k):
+            self.k = k
+
+        def visit_Name(self, n):
+            if isinstance(n.ctx, ast.Load) and n.id in flags:
+                r = flag_value(flags[n.id], self.k)
+                if r is not None:
+                    return ast.copy_location(ast.Constant(value=r), n)
+            return n
+
+        def visit_Compare(self, n):
+            self.generic_visit(n)
+            r = flag_value(n, self.k)
+            return n if r is None else ast.copy_location(ast.Constant(value=r), n)
+
+        def visit_Call(self, n):
+            self.generic_visit(n)
+            if isinstance(n.func, ast.Name) and n.func.id in picks:
+                v = picks[n.func.id][self.k]
+                if isinstance(v, ast.Lambda) and len(v.args.args) == len(n.args) and not n.keywords:
+                    sub = {a.arg: arg for a, arg in zip(v.args.args, n.args)}
+
+                    class S(ast.NodeTransformer):
+                        def visit_Name(self, x):
+                            return clone(sub[x.id]) if isinstance(x.ctx, ast.Load) and x.id in sub else x
+
+                    return ast.copy_location(S().visit(clone(v.body)), n)
+                if isinstance(v, (ast.Attribute, ast.Name)):
+                    return ast.copy_location(ast.Call(func=clone(v), args=n.args, keywords=n.keywords), n)
+            return n
+
+        def visit_IfExp(self, n):
+            self.generic_visit(n)
+            if isinstance(n.test, ast.Constant) and isinstance(n.test.value, bool):
+                return n.body if n.test.value else n.orelse
+            return n
+
+        def visit_If(self, n):
+            self.generic_visit(n)
+            if isinstance(n.test, ast.Constant) and isinstance(n.test.value, bool):
+                return n.body if n.test.value else (n.orelse or [ast.copy_location(ast.Pass(), n)])
+            return n
+
+    n_keys = 0
+    for k in keys:
+        spec = Spec(k).visit(clone(cl))
+        ast.fix_missing_locations(spec)
+        rets, singular, unknown, inside = classify_closure(spec, fi, prog, factories)
+        if unknown or getattr(spec, "_param_calls", None):
+            rep.undecided(f"{construct}[{keyname}={k!r}]: the specialised closure is not interpretable ({sorted(set(unknown))[:2] or spec._param_calls[:1]})")
+            continue
+        n_keys += 1
+        all_san = all(s_ for _r, s_ in rets) and bool(rets)
+        ok = not singular
+        term = src(rets[0][0])[:60] if rets else "?"
+        why = ""
+        if not ok:
+            tests = [f"`{src(flags[nm])}` is False" for nm in flags if flag_value(flags[nm], k) is False and any(isinstance(x, ast.Name) and x.id == nm for x in ast.walk(cl))]
+            tabs = []
+            for nm in flags:
+                for c in ast.walk(flags[nm]):
+                    if isinstance(c, ast.Name) and c.id != keyname:
+                        vals = _module_literal(prog, fi.module, c.id)
+                        if vals is not None:
+                            tabs.append(f"{c.id} = {tuple(vals)!r}")
+            why = (" (" + "; ".join(tests[:1] + tabs[:1]) + ")") if tests or tabs else ""
+        rep.ob("R19.1", f"{construct}[{keyname}={k!r}]", ok,
+               ("sanitised on every return" if all_san else "the picked derivative contains only regular primitives") if ok else
+               f"for {keyname} = {k!r} the closure returns `{term}`, whose term contains {', '.join(sorted(set(singular))[:3])}, without _sanitize_derivatives{why}: NaN/inf reaches SciPy at the singular point",
+               loc=f"{fi.module.rel}:{cl.lineno}", detail="singular=>sanitised", robust=True,
+               extra={"sanitised": all_san, "singular": sorted(set(singular + inside))})
+    return n_keys > 0
+
+
 def check(prog, rep):
     factories = discover_factories(prog)
     if len(factories) < 3:
@@ -386,6 +538,8 @@ def check(prog, rep):
             if ok and not all_san and getattr(cl, "_param_calls", None):
                 # unsanitised, and the term calls a callable that is a parameter of the factory: whether it is singular
                 # is not visible here (a table-driven factory); not decided on this view
+                if not isinstance(cl, ast.Lambda) and _table_driven(prog, rep, fi, cl, construct, factories):
+                    continue
                 rep.undecided(f"{construct}: calls `{cl._param_calls[0]}`, a callable of unknown provenance (factory parameter / table entry), and is not sanitised; whether it is singular is not visible here")
                 continue
             rep.ob("R19.1", construct, ok,
@@ -471,6 +625,9 @@ def check(prog, rep):
                     if kw.arg in ("jac", "hess"):
                         n194 += 1
                         ok, why = _traces_to_factory(prog, fi, kw.value, fact_names)
+                        if ok is None:
+                            rep.undecided(f"{fi.name}:minimize({kw.arg}=): {why}")
+                            continue
                         rep.ob("R19.4", f"{fi.name}:minimize({kw.arg}=)", ok, why, loc=f"{fi.module.rel}:{n.lineno}", detail="origin")
             if isinstance(n, ast.Dict):
                 keys = [k.value for k in n.keys if isinstance(k, ast.Constant)]
@@ -478,6 +635,9 @@ def check(prog, rep):
                     n194 += 1
                     v = n.values[keys.index("jac")]
                     ok, why = _traces_to_factory(prog, fi, v, fact_names)
+                    if ok is None:
+                        rep.undecided(f"{fi.name}:constraint-dict: {why}")
+                        continue
                     typ = n.values[keys.index("type")] if "type" in keys else None
                     rep.ob("R19.4", f"{fi.name}:constraint-dict[{src(typ) if typ is not None else '?'}:{_sign(v)}]", ok, why, loc=f"{fi.module.rel}:{n.lineno}", detail="origin")
     rep.expect_min("R19.1", 44)
@@ -518,29 +678,39 @@ def _arm_key(cl, fi):
     return None
 
 
+def _all3(res):
+    """Conjunction of (True | False | None, why) verdicts: a definite False wins, then an undecided one."""
+    for want in (False, None):
+        for ok, why in res:
+            if ok is want:
+                return ok, why
+    return res[0]
+
+
 def _traces_to_factory(prog, fi, v, fact_names, depth=0):
     """Is callable expression ``v`` (in function fi) a flatten/neg wrapper around a factory-made callable?"""
     if isinstance(v, ast.IfExp):
-        a = _traces_to_factory(prog, fi, v.body, fact_names, depth)
-        b = _traces_to_factory(prog, fi, v.orelse, fact_names, depth)
-        return a[0] and b[0], a[1] if not a[0] else b[1]
+        return _all3([_traces_to_factory(prog, fi, v.body, fact_names, depth), _traces_to_factory(prog, fi, v.orelse, fact_names, depth)])
     if isinstance(v, ast.Constant) and v.value is None:
         return True, "None (no derivative supplied)"
     assigns = local_assignments(fi.node)
     nested = [n for n in ast.walk(fi.node) if isinstance(n, ast.FunctionDef) and n is not fi.node and isinstance(v, ast.Name) and n.name == v.id and enclosing_function(n) is fi.node]
     if nested:
-        res = [_closure_wraps(prog, fi, n, fact_names, assigns) for n in nested]
-        bad = [r for r in res if not r[0]]
-        return (not bad, bad[0][1] if bad else res[0][1])
+        return _all3([_closure_wraps(prog, fi, n, fact_names, assigns) for n in nested])
     if isinstance(v, ast.Lambda):
         return _closure_wraps(prog, fi, v, fact_names, assigns)
     if isinstance(v, ast.Name) and v.id in assigns and depth < 3:
         res = [_traces_to_factory(prog, fi, x, fact_names, depth + 1) for x in assigns[v.id] if isinstance(x, ast.AST)]
-        bad = [r for r in res if not r[0]]
-        return (not bad, bad[0][1] if bad else res[0][1]) if res else (False, f"cannot trace {v.id}")
+        return _all3(res) if res else (None, f"cannot trace {v.id}")
     if isinstance(v, ast.Call) and dotted(v.func) in fact_names:
         return True, f"made by derivative factory {dotted(v.func)}"
-    return False, f"cannot trace the origin of {src(v)[:50]} to a derivative factory"
+    if isinstance(v, ast.Attribute):
+        # kept on an object (problem._hess_cache): follow the stores into that attribute across the solver modules
+        stores = [(f2, n.value) for f2 in prog.functions.values() if f2.module.name.startswith("optyx.") for n in walk_local(f2.node, include_self=False)
+                  if isinstance(n, ast.Assign) and any(isinstance(t, ast.Attribute) and t.attr == v.attr for t in n.targets) and not (isinstance(n.value, ast.Constant) and n.value.value is None)]
+        if stores and depth < 3:
+            return _all3([_traces_to_factory(prog, f2, val, fact_names, depth + 1) for f2, val in stores])
+    return None, f"cannot trace the origin of {src(v)[:50]} to a derivative factory"
 
 
 def _closure_wraps(prog, fi, cl, fact_names, assigns):
@@ -548,6 +718,17 @@ def _closure_wraps(prog, fi, cl, fact_names, assigns):
     inner = [c for c in calls(cl, local=False) if isinstance(c.func, ast.Name)]
     cands = [c for c in inner if _is_whole_result(c, cl)]
     if not cands:
+        # positively hand-made: the elements it calls come from the plain expression compiler (no sanitising)
+        defaults0 = dict(zip([a.arg for a in cl.args.args][::-1], cl.args.defaults[::-1]))
+        for comp in [c for c in ast.walk(cl) if isinstance(c, ast.comprehension) and isinstance(c.iter, ast.Name)]:
+            srcname = defaults0.get(comp.iter.id, comp.iter)
+            vals = [v for v in assigns.get(srcname.id, []) if isinstance(v, ast.AST)] if isinstance(srcname, ast.Name) else []
+            for v in vals:
+                for c in ast.walk(v):
+                    if isinstance(c, ast.Call) and dotted(c.func) == "compile_expression":
+                        return False, f"the callable evaluates elements made by compile_expression (`{src(v)[:60]}`): a hand-assembled derivative that never passes through the sanitiser"
+        if inner:
+            return None, f"the callable calls {inner[0].func.id}(..) but what it returns is not one of the wrapper forms this rule follows"
         return False, "the callable does not return the result of a factory-made derivative callable"
     name = cands[0].func.id
     # default-argument binding: lambda x, jfn=c_jac_fn: ...
@@ -561,6 +742,10 @@ def _origin(prog, fi, node, fact_names, assigns, depth=0, seen=None):
     seen = seen if seen is not None else set()
     if isinstance(node, ast.Call) and dotted(node.func) in fact_names:
         return True, f"wraps the callable made by {dotted(node.func)}"
+    if isinstance(node, ast.Lambda) and depth < 4:
+        return _closure_wraps(prog, fi, node, fact_names, assigns)
+    if isinstance(node, ast.Call) and dotted(node.func) == "compile_expression":
+        return False, f"made by compile_expression (`{src(node)[:50]}`), the plain expression compiler: a derivative assembled by hand never passes through the sanitiser"
     a_ = fi.node.args
     params = [x.arg for x in a_.posonlyargs + a_.args + a_.kwonlyargs]
     if isinstance(node, ast.Name) and node.id in params and node.id not in assigns and depth < 4:
@@ -588,18 +773,34 @@ def _origin(prog, fi, node, fact_names, assigns, depth=0, seen=None):
         if key in seen:
             return True, "re-read of the same cache entry"
         seen.add(key)
-        # find stores X["key"] = factory(...) anywhere in the solver modules
-        found = []
-        for f2 in prog.functions.values():
-            if not f2.module.name.startswith("optyx.solvers"):
-                continue
-            a2 = local_assignments(f2.node)
-            for n in walk_local(f2.node, include_self=False):
-                if isinstance(n, ast.Assign):
-                    for t in n.targets:
-                        if isinstance(t, ast.Subscript) and isinstance(t.slice, ast.Constant) and t.slice.value == key:
-                            found.append(_origin(prog, f2, n.value, fact_names, a2, depth + 1, seen))
-        if found and all(ok for ok, _ in found):
+        # find the stores under that key anywhere in the solver modules
+        from .common import cache_entry_stores
+        found = [_origin(prog, f2, v, fact_names, a2, depth + 1, seen) for f2, v, a2 in cache_entry_stores(prog, key, lambda m: m.name.startswith("optyx.solvers"))]
+        if not found:
+            return None, f"no store under cache key {key!r} found"
+        if all(ok for ok, _ in found):
             return True, f"wraps cache[{key!r}], stored from a derivative factory"
+        if any(ok is None for ok, _ in found) and not any(ok is False for ok, _ in found):
+            return None, next(w for ok, w in found if ok is None)
         return False, f"cache[{key!r}] is not (only) stored from a derivative factory"
-    return False, f"cannot trace {src(node)[:40]} to a derivative factory"
+    if isinstance(node, ast.Attribute) and depth < 4:
+        # kept on an object (problem._hess_cache = compile_hessian(..)): follow the stores into that attribute
+        key = "attr:" + node.attr
+        if key in seen:
+            return True, "re-read of the same attribute"
+        seen.add(key)
+        stores = [(f2, n.value) for f2 in prog.functions.values() if f2.module.name.startswith("optyx.") for n in walk_local(f2.node, include_self=False)
+                  if isinstance(n, (ast.Assign, ast.AnnAssign)) and getattr(n, "value", None) is not None
+                  and any(isinstance(t, ast.Attribute) and t.attr == node.attr for t in (n.targets if isinstance(n, ast.Assign) else [n.target]))
+                  and not (isinstance(n.value, ast.Constant) and n.value.value is None)]
+        if stores:
+            return _all3([_origin(prog, f2, val, fact_names, local_assignments(f2.node), depth + 1, seen) for f2, val in stores])
+    if isinstance(node, ast.Call) and isinstance(node.func, ast.Name) and node.func.id in {f.name for f in prog.functions.values() if f.module is fi.module and f.parent is None}:
+        # a wrapper factory of the solver module (e.g. a sign-flipping wrapper around the compiled callable)
+        g = next(f for f in prog.functions.values() if f.module is fi.module and f.parent is None and f.name == node.func.id)
+        for cl, _ret in returned_closures(prog, g):
+            ok, why = _closure_wraps(prog, g, cl, fact_names, local_assignments(g.node))
+            if ok is not True:
+                return (None if ok is None else ok), why
+            return True, f"{g.name}(..) wraps a factory-made callable"
+    return None, f"cannot trace {src(node)[:40]} to a derivative factory"
